@@ -4,7 +4,9 @@ C10 – Route preference is a weak order that implements the RFC 4271 tie-breake
 Property theorems only (helpers are private).  Model: Rc/Model/PathSel.lean.
 -/
 import Rc.Model.PathSel
+import Rc.Model.PathSelGlue
 import Rc.Lemmas.Order
+import Rc.Lemmas.PathSelGlue
 
 namespace Rc.Thm.C10
 open Rc Rc.PathSel Rc.Order
@@ -380,5 +382,188 @@ theorem cmp_is_rfc (s : Strat) (a b : CRoute) : cmp s a.1 b.1 = .ok (rfcPrefer s
   cases s <;>
     simp [specList, cmpP, chainFrom, stepB_constructed a.2 b.2, stepC, stepD, stepE, stepF, stepF2, stepG,
       rfcDop_eq, rfcPathLen_eq, rfcNeighbourAs_eq, rfcId_eq, rfcMed, rfcClusterLen, Ordering.then_eq]
+
+/-! ## the glue: from a received UPDATE (or any attribute map) to the route `cmp` reads
+
+Model: Rc/Model/PathSelGlue.lean (`routeOfPaMap` = `OrdRoute::try_new` + every read of `cmp`, on
+C17's model of `PaMap` / `PaMap::from_update_pdu`; `rfcRoute` = the reference reading of the
+attribute section).  An accepted UPDATE is one C17's model of `UpdateMessage::from_octets`
+(`PaMap.parseUpdate four ap`) accepts, in a session of either AS number width, with or without
+ADD-PATH. -/
+
+section Glue
+open Rc.PaMap Rc.PathSelGlue
+
+/-- **(a) route_of_update_spec** - for EVERY accepted UPDATE and every tie-breaker record, the route
+`PaMap::from_update_pdu` + `OrdRoute::try_new` build is the route the attribute section denotes by
+the RFCs (`rfcRoute`): each field is read from the FIRST attribute with its type code (RFC 7606
+3.g; F27); ORIGIN must be one octet and the AS_PATH must parse in the AS number width of the
+session, else the route is refused (F25: an `Invalid` attribute in the slot does not count);
+LOCAL_PREF / MED / ORIGINATOR_ID of another length than four octets and a CLUSTER_LIST that is not
+a whole number of ids count as absent; the AS_PATH hops are C13's `toHopPath` of the octets in
+the session's width (an AS4_PATH is not consulted); and `try_new` accepts exactly when that route
+has an ORIGIN, an AS_PATH and - learned over eBGP - a neighbour AS.  Second part: every attribute
+carries the session's width, i.e. the AS_PATH is read `four` octets wide. -/
+theorem route_of_update_spec (four ap : Bool) (pdu : Bytes) (u : Update)
+    (h : parseUpdate four ap pdu = .ok u) (tb : Tb) :
+    routeOfPaMap (fromUpdate u) tb =
+        (if tryNew (rfcRoute u.attrs tb) = none then .ok (rfcRoute u.attrs tb) else .err) ∧
+      (∀ w ∈ u.attrs, w.four = four) := by
+  refine ⟨?_, parseUpdate_width four ap pdu u h⟩
+  simp only [routeOfPaMap, readRoute_fromUpdate]
+  cases tryNew (rfcRoute u.attrs tb) <;> simp
+
+/-- the hypothesis is satisfiable: an UPDATE of a two-octet session with ORIGIN, AS_PATH (10 20) and one prefix -/
+example : (parseUpdate false false (List.replicate 16 255 ++ [0, 39, 2, 0, 0, 0, 13, 0x40, 1, 1, 0,
+    0x40, 2, 6, 2, 2, 0, 10, 0, 20, 16, 10, 1])).isOk = true := by decide +kernel
+
+private theorem hopCount_selHop (h : AsPath.HopPath) : hopCount (h.map selHop) = AsPath.hopCountSel h := by
+  unfold hopCount AsPath.hopCountSel
+  generalize (0 : Nat) = acc
+  induction h generalizing acc with
+  | nil => rfl
+  | cons x r ih =>
+    simp only [List.map_cons, List.foldl_cons]
+    rw [ih]
+    congr 1
+    cases x with
+    | asn n => rfl
+    | seg s =>
+      simp only [selHop, AsPath.selStep, hopWeight_eq]
+      by_cases h1 : s.ty = 1
+      · simp [h1]
+      · by_cases h2 : s.ty = 2
+        · simp [h2]
+        · simp [h1, h2]
+
+private theorem neighbor_hopsOfSegs (ss : List AsPath.Seg) :
+    neighbor ((AsPath.hopsOfSegs ss).map selHop) =
+      (match ss with
+       | [] => none
+       | s :: _ => if s.ty = 2 then s.asns.head? else none) := by
+  cases ss with
+  | nil => rfl
+  | cons s r =>
+    have e : AsPath.hopsOfSegs (s :: r) = AsPath.hopsOfSeg s ++ AsPath.hopsOfSegs r := by simp [AsPath.hopsOfSegs]
+    rw [e]
+    unfold AsPath.hopsOfSeg
+    by_cases h2 : s.ty = 2
+    · cases ha : s.asns with
+      | nil => simp [h2, ha, selHop, neighbor]
+      | cons a t => simp [h2, ha, selHop, neighbor]
+    · simp only [h2, false_and, if_false, List.cons_append, List.nil_append, List.map_cons, selHop]
+      obtain ⟨ty, fo, asns⟩ := s
+      simp only at h2 ⊢
+      rcases ty with _ | _ | _ | n <;> simp_all [neighbor]
+
+/-- ... spelled out for the AS_PATH: when the first AS_PATH attribute of an accepted UPDATE is a valid
+wire path in the session's width, the route's path length is C13's path-selection count of those
+octets (`hopCountSel_wire`: the AS numbers in AS_SEQUENCE segments plus the number of AS_SETs,
+confederation segments nothing) and its neighbour AS is the first AS of the first segment if that is
+an AS_SEQUENCE (none otherwise: the MED step then takes the local AS). -/
+theorem update_path_reading (four ap : Bool) (pdu : Bytes) (u : Update)
+    (h : parseUpdate four ap pdu = .ok u) (tb : Tb) (w : Wire) (hw : firstWire 2 u.attrs = some w)
+    (hc : AsPath.check four w.value = .ok ()) :
+    ∃ ss, AsPath.segments four w.value = .ok ss ∧
+      (rfcRoute u.attrs tb).path = .val ((AsPath.hopsOfSegs ss).map selHop) ∧
+      pathLen (rfcRoute u.attrs tb) = (ss.map AsPath.segSel).sum ∧
+      (rfcRoute u.attrs tb).path.get.bind neighbor =
+        (match ss with
+         | [] => none
+         | s :: _ => if s.ty = 2 then s.asns.head? else none) := by
+  have hfour : w.four = four := by
+    have hm : w ∈ u.attrs := by
+      clear hc h
+      generalize u.attrs = ws at hw
+      induction ws with
+      | nil => simp [firstWire] at hw
+      | cons x xs ih =>
+        simp only [firstWire] at hw
+        split at hw
+        · cases hw; simp
+        · exact List.mem_cons_of_mem _ (ih hw)
+    exact parseUpdate_width four ap pdu u h w hm
+  obtain ⟨ss, _, _, hseg, _, hh⟩ := AsPath.wire_view four w.value hc
+  have hp : (rfcRoute u.attrs tb).path = .val ((AsPath.hopsOfSegs ss).map selHop) := by
+    simp [rfcRoute, rfcPathSlot, hw, hfour, hh]
+  refine ⟨ss, hseg, hp, ?_, ?_⟩
+  · simp [pathLen, hp, Slot.get, hopCount_selHop, AsPath.hopCountSel_hopsOfSegs]
+  · simp [hp, Slot.get, neighbor_hopsOfSegs]
+
+/-- ORIGIN 0, AS_PATH = AS_SEQUENCE(10, 20) then AS_SET(30, 40) in two-octet form, a second (ignored)
+AS_PATH, MED 5 and a malformed LOCAL_PREF, received in a two-octet session: accepted, path length 3,
+neighbour 10, MED 5, LOCAL_PREF absent. -/
+example :
+    (routeOfPaMap (fromUpdate ⟨[⟨0x40, 1, [0], false⟩, ⟨0x40, 2, [2, 2, 0, 10, 0, 20, 1, 2, 0, 30, 0, 40], false⟩,
+      ⟨0x40, 2, [2, 1, 0, 99], false⟩, ⟨0x80, 4, [0, 0, 0, 5], false⟩, ⟨0x40, 5, [1, 2], false⟩], [16, 10, 1]⟩)
+      ⟨false, none, 65000, 1, false, 1⟩).toOption.map
+        (fun r => (pathLen r, r.path.get.bind neighbor, r.med, r.localPref)) = some (3, some 10, some 5, none) := by
+  decide +kernel
+
+/-- **(b) cmp_of_updates_is_rfc** - comparing the routes of two accepted UPDATEs (received in sessions of
+any kind, with any tie-breaker records) that `try_new` accepted yields the RFC 4271 9.1.2.2
+elimination procedure `rfcPrefer` applied to the RFC readings of the two attribute sections:
+(a) composed with `cmp_is_rfc`. -/
+theorem cmp_of_updates_is_rfc (s : Strat) (f1 a1 f2 a2 : Bool) (p1 p2 : Bytes) (u1 u2 : Update)
+    (h1 : parseUpdate f1 a1 p1 = .ok u1) (h2 : parseUpdate f2 a2 p2 = .ok u2) (t1 t2 : Tb) (r1 r2 : Route)
+    (e1 : routeOfPaMap (fromUpdate u1) t1 = .ok r1) (e2 : routeOfPaMap (fromUpdate u2) t2 = .ok r2) :
+    cmp s r1 r2 = .ok (rfcPrefer s (rfcRoute u1.attrs t1) (rfcRoute u2.attrs t2)) := by
+  have k : ∀ (f a : Bool) (p : Bytes) (u : Update) (t : Tb) (r : Route), parseUpdate f a p = .ok u →
+      routeOfPaMap (fromUpdate u) t = .ok r → r = rfcRoute u.attrs t ∧ tryNew r = none := by
+    intro f a p u t r h e
+    rw [(route_of_update_spec f a p u h t).1] at e
+    split at e
+    · rename_i hn; cases e; exact ⟨rfl, hn⟩
+    · cases e
+  obtain ⟨rfl, n1⟩ := k f1 a1 p1 u1 t1 r1 h1 e1
+  obtain ⟨rfl, n2⟩ := k f2 a2 p2 u2 t2 r2 h2 e2
+  exact cmp_is_rfc s ⟨_, n1⟩ ⟨_, n2⟩
+
+/-- what `routeOfPaMap` returns is a constructed route -/
+theorem route_of_pa_map_constructed {m : PaMap.Map} {tb : Tb} {r : Route}
+    (h : routeOfPaMap m tb = .ok r) : tryNew r = none := by
+  unfold routeOfPaMap at h
+  split at h
+  · split at h
+    · rename_i hn; cases h; simpa using hn
+    · cases h
+  · cases h
+  · cases h
+
+/-- **(c) try_new_total** - `routeOfPaMap` never panics (the reads always find values of the shape
+their type promises) on the map `from_update_pdu` builds from ANY attribute list - malformed,
+repeated, unknown attributes in any slot -, nor on any map reachable from the empty map by any
+sequence of API calls (`set` / `set_from_enum` / `add_attribute` of `Invalid` and `Unimplemented`
+attributes under any type code / `remove` / `remove_non_transitives` / `merge_upsert` /
+`from_update_pdu`) whose typed arguments are values the API can build (`OpOk`; `spec_valok`: every
+attribute a request line denotes); and `cmp` never panics on two routes `try_new` accepted, whatever
+the maps hold (extends `cmp_never_panics_on_constructed`). -/
+theorem try_new_total :
+    (∀ (u : Update) (tb : Tb), routeOfPaMap (fromUpdate u) tb ≠ .panic) ∧
+    (∀ (ops : List Op), (∀ o ∈ ops, OpOk o) → ∀ tb : Tb, routeOfPaMap (run ⟨[], []⟩ ops).a tb ≠ .panic) ∧
+    (∀ (s : Strat) (m1 m2 : PaMap.Map) (t1 t2 : Tb) (r1 r2 : Route),
+      routeOfPaMap m1 t1 = .ok r1 → routeOfPaMap m2 t2 = .ok r2 → cmp s r1 r2 ≠ .panic) := by
+  have np : ∀ (m : PaMap.Map), ValOk m → ∀ tb : Tb, routeOfPaMap m tb ≠ .panic := by
+    intro m hm tb
+    obtain ⟨r, hr⟩ := readRoute_ok m hm tb
+    simp only [routeOfPaMap, hr]
+    split <;> simp
+  refine ⟨fun u tb => np _ (valok_fromUpdate u) tb, fun ops h tb => np _ (valok_run ops h ⟨[], []⟩ valok_empty valok_empty).1 tb, ?_⟩
+  intro s m1 m2 t1 t2 r1 r2 e1 e2
+  exact cmp_never_panics_on_constructed s ⟨r1, route_of_pa_map_constructed e1⟩ ⟨r2, route_of_pa_map_constructed e2⟩
+
+/-- an API call sequence that leaves an `Invalid` attribute under the MED code and an
+`Unimplemented` one under the ORIGINATOR_ID code next to a valid ORIGIN / AS_PATH satisfies `OpOk` -/
+example : ∀ o ∈ [Op.add ⟨.invalid, 4, 0x80, [0, 0]⟩, Op.add ⟨.unimpl, 9, 0xC0, [1]⟩,
+    Op.set ⟨.typed, 1, 0x40, [0]⟩, Op.set ⟨.typed, 2, 0x40, [2, 1, 0, 0, 0, 10]⟩], OpOk o := by
+  intro o ho
+  simp only [List.mem_cons, List.mem_nil_iff, or_false] at ho
+  rcases ho with rfl | rfl | rfl | rfl
+  · intro hk; cases hk
+  · intro hk; cases hk
+  · intro _; decide
+  · intro _; decide +kernel
+
+end Glue
 
 end Rc.Thm.C10
